@@ -21,6 +21,7 @@ type ignCase struct {
 	placement string // trailing | lead-stmt | lead-compound | lead-decl | lead-decl-gap | file
 	where     string // in | prev | next | other-file
 	list      int
+	variant   int // selects the sub-form of placements that have several (cycled, not drawn: every form meets every list)
 }
 
 func c07Spec(r *base.Run, i int) gen.Spec {
@@ -122,7 +123,7 @@ func applyIgnore(bt *gen.Built, lineID int, c ignCase, code string, rng *base.Ra
 		{
 			head, next := "switch {", "default:"
 			firstClause := &gen.Node{Pre: []*gen.Line{p.NewLine("case false:")}}
-			switch rng.Intn(3) {
+			switch c.variant % 3 {
 			case 0:
 				firstClause.Kids = []*gen.Node{{Pre: []*gen.Line{p.NewLine("_ = 1")}}}
 				desc += "+after-statement"
@@ -149,11 +150,11 @@ func applyIgnore(bt *gen.Built, lineID int, c ignCase, code string, rng *base.Ra
 		}
 		{
 			forms := [][3]string{{"switch {", "case true:", "tagless"}, {"switch 1 {", "case 1:", "tagged"}, {"switch any(nil).(type) {", "default:", "type-switch"}, {"switch ok := true; {", "case ok:", "init-only"}, {"select {", "default:", "select"}}
-			fm := forms[rng.Intn(len(forms))]
+			fm := forms[c.variant%len(forms)]
 			desc += "+" + fm[2]
 			clause := &gen.Node{Pre: []*gen.Line{p.NewLine(fm[1])}, Kids: []*gen.Node{self.N}, Lead: []*gen.Ignore{ig}}
 			sw := &gen.Node{Pre: []*gen.Line{p.NewLine(fm[0])}, Kids: []*gen.Node{clause}, Post: []*gen.Line{p.NewLine("}")}}
-			if rng.Bool() {
+			if (c.variant/len(forms))%2 == 1 {
 				// ... the switch being itself the last statement of an outer clause (the three nodes end at the same place)
 				sw = &gen.Node{Pre: []*gen.Line{p.NewLine("switch {")}, Kids: []*gen.Node{{Pre: []*gen.Line{p.NewLine("default:")}, Kids: []*gen.Node{{Pre: []*gen.Line{p.NewLine("_ = 3")}}, sw}}}, Post: []*gen.Line{p.NewLine("}")}}
 				desc += "+last-in-outer-clause"
@@ -169,7 +170,7 @@ func applyIgnore(bt *gen.Built, lineID int, c ignCase, code string, rng *base.Ra
 		if !movableIntoClause(self) {
 			return false, ""
 		}
-		clauseHead := []string{"default:", "case true:", "case 1 > 0, false:"}[rng.Intn(3)]
+		clauseHead := []string{"default:", "case true:", "case 1 > 0, false:"}[c.variant%3]
 		clause := &gen.Node{Pre: []*gen.Line{p.NewLine(clauseHead)}, Kids: []*gen.Node{self.N}}
 		if rng.Bool() {
 			clause.Kids = []*gen.Node{{Pre: []*gen.Line{p.NewLine("_ = 0")}}, self.N}
@@ -239,7 +240,7 @@ func applyIgnore(bt *gen.Built, lineID int, c ignCase, code string, rng *base.Ra
 					return false, ""
 				}
 				forms := [][2]string{{"{", "bare-block"}, {"if true {", "if"}, {"for false {", "for"}, {"switch {", "switch"}, {"func() {", "closure"}}
-				fm := forms[rng.Intn(len(forms))]
+				fm := forms[c.variant%len(forms)]
 				closing = p.NewLine("}")
 				if fm[1] == "closure" {
 					closing = p.NewLine("}()")
@@ -297,7 +298,7 @@ func applyIgnore(bt *gen.Built, lineID int, c ignCase, code string, rng *base.Ra
 			return false, ""
 		}
 		file.PkgTrail = ig
-		if rng.Bool() {
+		if c.variant%2 == 1 {
 			file.PkgTrailKeyword = true
 			desc += "+after-keyword"
 		}
@@ -469,6 +470,7 @@ func checkC07(replay string) {
 			}
 			lineID := ids[rng.Intn(len(ids))]
 			c.list = pair % gen.NCodeLists()
+			c.variant = c.list + pi + k/len(pairOrder)
 			bt := gen.Build(spec)
 			ok, desc := applyIgnore(bt, lineID, c, code, rng)
 			if !ok {
